@@ -8,6 +8,7 @@ import (
 	"fmt"
 	"math"
 	"math/bits"
+	"strconv"
 	"strings"
 )
 
@@ -123,6 +124,8 @@ func (t *T) IsFalse() bool { return t.Op == OpConst && t.Sort.K == Bool && t.Val
 func (t *T) Range() (uint64, uint64) { return t.lo, t.hi }
 
 type Ctx struct {
+	kbuf  []byte
+	bvc   map[bvKey]*T
 	tab   map[string]*T
 	next  int
 	True  *T
@@ -131,7 +134,7 @@ type Ctx struct {
 }
 
 func NewCtx() *Ctx {
-	c := &Ctx{tab: map[string]*T{}, Vars: map[string]*T{}}
+	c := &Ctx{tab: map[string]*T{}, Vars: map[string]*T{}, bvc: map[bvKey]*T{}}
 	c.True = c.mk(&T{Op: OpConst, Sort: Sort{Bool, 0}, Val: 1})
 	c.False = c.mk(&T{Op: OpConst, Sort: Sort{Bool, 0}, Val: 0})
 	return c
@@ -145,12 +148,31 @@ func mask(w int) uint64 {
 }
 
 func (c *Ctx) key(t *T) string {
-	var sb strings.Builder
-	fmt.Fprintf(&sb, "%d|%d.%d|%x|%s|%d.%d", t.Op, t.Sort.K, t.Sort.W, t.Val, t.Name, t.Hi, t.Lo)
+	b := c.kbuf[:0]
+	b = strconv.AppendInt(b, int64(t.Op), 10)
+	b = append(b, '|')
+	b = strconv.AppendInt(b, int64(t.Sort.K), 10)
+	b = append(b, '.')
+	b = strconv.AppendInt(b, int64(t.Sort.W), 10)
+	b = append(b, '|')
+	b = strconv.AppendUint(b, t.Val, 16)
+	b = append(b, '|')
+	b = append(b, t.Name...)
+	b = append(b, '|')
+	b = strconv.AppendInt(b, int64(t.Hi), 10)
+	b = append(b, '.')
+	b = strconv.AppendInt(b, int64(t.Lo), 10)
 	for _, a := range t.Args {
-		fmt.Fprintf(&sb, "|%d", a.ID)
+		b = append(b, '|')
+		b = strconv.AppendInt(b, int64(a.ID), 10)
 	}
-	return sb.String()
+	c.kbuf = b
+	return string(b)
+}
+
+type bvKey struct {
+	w int
+	v uint64
 }
 
 func (c *Ctx) mk(t *T) *T {
@@ -181,7 +203,13 @@ func (c *Ctx) Size() int { return len(c.tab) }
 // ---- constructors -------------------------------------------------------
 
 func (c *Ctx) BVConst(w int, v uint64) *T {
-	return c.mk(&T{Op: OpConst, Sort: Sort{BV, w}, Val: v & mask(w)})
+	k := bvKey{w, v & mask(w)}
+	if t, ok := c.bvc[k]; ok {
+		return t
+	}
+	t := c.mk(&T{Op: OpConst, Sort: Sort{BV, w}, Val: k.v})
+	c.bvc[k] = t
+	return t
 }
 func (c *Ctx) BoolConst(b bool) *T {
 	if b {
